@@ -6,6 +6,11 @@ in random surroundings:
    truthinesses) x validator latency {at once, before, at (three tie linearisations), after the deadline, never};
  * Interest side, suspended validators: the validator of an incoming Interest takes its time while the application attaches /
    detaches routes or replaces the application-wide validator (Model/GateSuspend.v, suspended_table / random_susp);
+ * validator OUTCOMES: wherever a validator is consulted it accepts, rejects or TERMINATES WITH AN EXCEPTION (every exception
+   class of ndn.types + Exception / TimeoutError / CancelledError / OSError; at once or after a suspension): only an ACCEPT lets
+   anything through to the handler / the caller;
+ * Interest side, SEQUENCES on one application: a digest component that was right for one Interest re-used on packets with
+   other parameters / names / signature elements, in every order, with retransmissions (reuse_table, inject_reuse);
  * Interest side: every verdict x ApplicationParameters present x signature {none, DigestSha256 ok, DigestSha256 bad}
    x parameters-digest correct x route with/without its own validator x no route, in both front-ends, x every
    placement of a replacement of the application-wide validator (legacy app.int_validator) relative to the installation
@@ -37,19 +42,74 @@ RULE = ('Data side: verdict x latency table (6 resp. 9 verdict values x 8 latenc
         'accepted it (Spec.may_deliver / in_force) and was the one consulted, no double delivery, nothing delivered without a verdict, '
         'an accepted Interest whose route is unchanged is delivered; correspondence with Model/GateSuspend.v (handler calls, '
         'validator consultations). '
+        'VALIDATOR OUTCOMES (every place a validator is consulted: route validators of both front-ends, the legacy application-wide '
+        'Interest validator, the Data validator given to express of both front-ends): accept / reject (every verdict value) / '
+        'TERMINATES WITH AN EXCEPTION, one outcome per exception class that ndn.types defines (reflected: NetworkError, '
+        'InterestTimeout, InterestCanceled, InterestNack, ValidationFailure) and per built-in Exception, TimeoutError, CancelledError, '
+        'OSError; raised at once or when a suspended validator is resumed. Interest side: the full params x signature x digest product '
+        'against all routes under the placements after-routes and replaced-restored (legacy; appv2: never; thorough: all placements), '
+        'every suspended-validator update in the window x route with / without validator x (legacy) replaced application-wide '
+        'validator, and with probability 0.2 per Interest in the random interleavings; Data side: every exception x the 8 latencies, '
+        'plus random pipeline histories whose immediate verdicts / vdone events are replaced by exceptions (p = 0.5). Oracle: a '
+        'validator that raised has not accepted - handler called iff Spec.may_deliver with a non-passing verdict '
+        '(delivered-unvalidated:...:verdict=raise:<Class>), and for ANY pipeline history an Interest completes with the payload only '
+        'if some outcome the history gives its validator is an accepting verdict (data-without-accepting-verdict); that the exception '
+        'itself escapes from the task the library created (legacy / appv2 Interests, appv2 Data) or reaches the awaiting caller (legacy '
+        'Data) is not judged; '
+        'SEQUENCES OF INTERESTS ON ONE APPLICATION, DIGEST COMPONENT RE-USED (both front-ends; one process, whatever the library keeps '
+        'between packets is carried over): a right Interest O (unsigned / signed, non-empty ApplicationParameters unique per case and '
+        'per Interest, so no digest was ever seen by the process before) and packets F carrying O\'s ParametersSha256DigestComponent '
+        'over other parameters (non-empty / empty / none + signature) x signature class {none, ok, bad} x name {same, sibling, deeper '
+        'route, other route}, in the orders O F / F O / O F F / O C F / O F C F / F O F (C = the very packet of O again, a '
+        'retransmission, RIGHT) / O P G F and O G P F (two right Interests, components crossed; G before the Interest it copies from); '
+        'every validator accepts, so only the digest check stands between F and a handler; in every second random interleaving '
+        '(placement and suspended families) each Interest takes with probability 0.35 the component of another right Interest of the '
+        'history or is its retransmission. Oracle unchanged (gate_oracle / susp_oracle): F has a wrong digest and never reaches a '
+        'handler nor a validator (delivered-unvalidated:...:digest_ok=0(reuse):...), C is delivered; '
         'plus the C03 random histories with all verdicts. non-trivial = the validator is consulted or a gate decision is taken; '
         'distinct by history')
 ASSUMPTIONS = ['validators are harness coroutines (verdict chosen by the history); the parameters digest / DigestSha256 '
-               'signature are computed by the real encoder and corrupted by flipping one bit',
+               'signature are computed by the real encoder and corrupted by flipping one bit, or (digest) replaced by the '
+               'digest component the real encoder computed for another Interest of the same history',
+               'non-empty ApplicationParameters carry a counter unique per case of the run and the Interest id: state a '
+               'library keeps per process (module level) cannot make the verdict on a case depend on the cases before it',
                'legacy front-end without a route validator: the application-wide int_validator is the library default '
                'sha256_digest_checker until a setdefault event assigns a harness validator to the documented attribute '
                'app.int_validator (and again after one restores the saved library default); appv2 has no application-wide '
                'validator, the event does nothing there',
+               'a validator that terminates with an exception is given a non-passing verdict in the model vocabulary (V2: 5, V1: 0); '
+               'appv2 Data validators that die with anything but TimeoutError / CancelledError are translated to "never answers" '
+               '(their task dies, nobody resolves the future); legacy Data validators that raise: model and implementation are '
+               'compared as "no payload, at the same virtual time" for that Interest (the caller gets the exception itself, the model '
+               'a ValidationFailure); loop-handler reports whose exception IS the object a harness validator raised are set aside',
                'the application-wide Data validator (legacy app.data_validator, used when express_interest is given '
                'validator=None) is not exercised: every expressed Interest carries its own validator']
 
 A, AB, ABC, X = P.A, P.AB, P.ABC, P.X
 LATENCIES = ['imm', 'before', 'at0', 'at1', 'at2', 'after', 'never', 'just-before']
+
+# VALIDATOR OUTCOMES.  A validator consulted by the library accepts, rejects (every verdict value) or TERMINATES WITH AN
+# EXCEPTION ('raise:<Class>', _pipeline.raise_outcomes(): every exception class ndn.types defines + Exception, TimeoutError,
+# CancelledError, OSError) - what a validator that fetches a certificate does when the fetch times out, is nacked or the
+# face goes down.  A validator that raised has not accepted: nothing may reach the handler / the caller as valid.
+_RAISES = []
+
+
+def raises():
+    if not _RAISES:
+        _RAISES.extend(P.raise_outcomes())
+    return _RAISES
+
+
+def accepts(fe, v):
+    """Did the validator ACCEPT (the only outcome after which a handler / the caller may get the packet)."""
+    if P.is_raise(v):
+        return False
+    return (v in (3, 4)) if fe == 'v2' else P.v1_truth(v)
+
+
+def vclass(v):
+    return v if P.is_raise(v) else f'verdict:{v}'
 
 
 def data_case(rng, fe, v, lat):
@@ -84,7 +144,8 @@ def data_oracle(ctx, fe, h, D, v, lat, r):
     case = {'frontend': fe, 'history': h}
     site = ('appv2.PendingIntEntry.satisfy' if fe == 'v2' else 'app.NDNApp._wait_for_data')
     got = r['completion'].get(9)
-    passes = (v in (3, 4)) if fe == 'v2' else P.v1_truth(v)
+    passes = accepts(fe, v)
+    raised = P.is_raise(v)
     in_time = lat in ('imm', 'before', 'just-before')
     kind = got[0][0] if got else None
     if kind == 0:
@@ -97,8 +158,14 @@ def data_oracle(ctx, fe, h, D, v, lat, r):
             ctx.violation(site, 'data-without-validator', 'payload returned without the validator being consulted', case)
     if in_time and passes and kind != 0:
         ctx.violation(site, 'accepted-data-not-returned', f'validator accepted in time but the result is {got}', case)
-    if in_time and not passes:
-        want_v = {5: 1}.get(v, v) if fe == 'v2' else 0
+    if in_time and raised and not (fe == 'v2' and v in P.RAISE_AS_TIMEOUT_V2):
+        # the validator terminated with an exception: no verdict to report; whatever the caller gets (the exception, a
+        # timeout), it is not the payload - checked above; appv2 has nothing to hand out before the deadline
+        if fe == 'v2' and kind not in (None, 0, 3):
+            ctx.violation(site, f'outcome-after-validator-exception:{kind}',
+                          f'the validator terminated with {v}: expected a timeout at the deadline, got {got}', case)
+    elif in_time and not passes:
+        want_v = ({5: 1}.get(v, v) if fe == 'v2' else 0) if not raised else 1
         if kind != 1 or got[0][1] != 5 or got[0][2] != want_v:
             ctx.violation(site, f'failure-without-packet-or-verdict:{v}',
                           f'verdict {v} must yield ValidationFailure carrying the packet and the verdict, got {got}', case)
@@ -109,6 +176,83 @@ def data_oracle(ctx, fe, h, D, v, lat, r):
                           f'legacy front-end: validator latency {lat} relative to the deadline, expected a timeout, got {got}', case)
     elif not in_time and kind not in (0, 3):
         ctx.violation(site, f'slow-validator-not-timeout:{kind}', f'validator latency {lat}: expected a timeout, got {got}', case)
+
+
+def raised_ids(h):
+    """Interests whose Data validator terminates with an exception somewhere in the history."""
+    ids = set()
+    for ev in h:
+        if ev[0] == 'express' and ev[6][0] == 'imm' and P.is_raise(ev[6][1]):
+            ids.add(ev[1])
+        elif ev[0] == 'vdone' and P.is_raise(ev[2]):
+            ids.add(ev[1])
+    return ids
+
+
+def inject_raises(rng, h, p=0.5):
+    """Replace verdicts of Data validators (immediate ones and 'vdone' events) by 'terminates with an exception'."""
+    out = []
+    for ev in h:
+        if ev[0] == 'express' and ev[6][0] == 'imm' and rng.random() < p:
+            ev = ev[:6] + (('imm', rng.choice(raises())),) + ev[7:]
+        elif ev[0] == 'vdone' and rng.random() < p:
+            ev = ev[:2] + (rng.choice(raises()),) + ev[3:]
+        out.append(ev)
+    return out
+
+
+def verdict_oracle(ctx, fe, h, r):
+    """ANY history: an expressed Interest completes with the payload only if its validator ACCEPTED - some outcome the
+    history gives that validator (its immediate one, or a 'vdone' event) is an accepting verdict; rejections and
+    validators that terminate with an exception never are."""
+    site = ('appv2.PendingIntEntry.satisfy' if fe == 'v2' else 'app.NDNApp._wait_for_data')
+    given = {}
+    for ev in h:
+        if ev[0] == 'express':
+            given.setdefault(ev[1], [])
+            if ev[6][0] == 'imm':
+                given[ev[1]].append(ev[6][1])
+        elif ev[0] == 'vdone' and ev[1] in given:
+            given[ev[1]].append(ev[2])
+    for i, vs in given.items():
+        got = r['completion'].get(i)
+        if got is not None and got[0][0] == 0 and not any(accepts(fe, v) for v in vs):
+            ctx.violation(site, 'data-without-accepting-verdict:' + (vclass(vs[0]) if vs else 'no-outcome'),
+                          f'Interest {i} completed with the payload {got}; its validator never accepted '
+                          f'(outcomes given by the history: {vs})', {'frontend': fe, 'history': h})
+        if any(P.is_raise(v) for v in vs):
+            ctx.stat(f'{fe}.data-validator-raised.' + ('payload' if got and got[0][0] == 0 else 'no-payload'))
+
+
+def check_data(ctx, fe, h, tag):
+    """check_history + verdict_oracle.  Legacy front-end with a Data validator that terminates with an exception: the
+    exception reaches the awaiting caller as it is (the model knows 'the validator did not accept' -> ValidationFailure at
+    the same moment); both sides are compared as 'no payload, at time t' for those Interests, everything else exactly."""
+    rs = raised_ids(h)
+    if fe == 'v2' or not rs:
+        same, m, r = P.check_history(ctx, fe, h, tag, 'C05')
+    else:
+        h = P.fix_digest_names(h)
+        m = P.run_model(ctx, fe, h)
+        r = P.canon_impl(fe, P.run_impl(fe, h))
+
+        def coarse(c):
+            return {i: (((9,), t) if i in rs and o[0] != 0 else (o, t)) for i, (o, t) in c.items()}
+        mc, rc = dict(m), dict(r)
+        mc['completion'], rc['completion'] = coarse(m['completion']), coarse(r['completion'])
+        same = P.compare(ctx, 'pipeline', fe, h, mc, rc)
+        if r['errors'] or r['loop_errors']:
+            ctx.violation('app.NDNApp._receive', 'internal-error:' + str((r['errors'] or r['loop_errors'])[0][1]),
+                          f'internal error: {r["errors"]} {r["loop_errors"]}', {'frontend': fe, 'history': h})
+        ctx.case((fe, tuple(map(repr, h))), len(h) > 2,
+                 {'frontend': fe, 'tag': tag, 'history': h, 'model': m['completion'], 'impl': r['completion']}, f'{fe}.{tag}')
+    verdict_oracle(ctx, fe, h, r)
+    return same, m, r
+
+
+def digest_class(dok):
+    """'' for a right / bit-flipped digest; the way the digest component was obtained otherwise (part of the violation class)."""
+    return ('(' + dok.split(':')[0] + ')') if isinstance(dok, str) else ''
 
 
 ROUTES = [(A, True), (AB, False), (X, False)]          # attached prefixes: /a with a validator, /a/b and /x without
@@ -211,6 +355,7 @@ def gate_oracle(ctx, fe, h, r, site):
         if ev[0] != 'interest':
             continue
         _, kk, n, hp, sig, dok, v, _t = ev
+        how, dok = digest_class(dok), P.dok_true(dok)
         route = py_lpm(table, n)
         plain = (not hp) and sig == 0
         if route is None:
@@ -221,7 +366,7 @@ def gate_oracle(ctx, fe, h, r, site):
             continue
         own = bool(ctx.call([4, P.fe_num(fe), route[1], P.m_history(fe, h[:j])]))
         src = 'route' if route[1] else ('app-default' if own else 'none')
-        cls = f'params={int(hp)}:sig={sig}:digest_ok={int(dok)}:validator={src}:verdict={v}'
+        cls = f'params={int(hp)}:sig={sig}:digest_ok={int(dok)}{how}:validator={src}:verdict={v}'
         allowed = ctx.call([3, P.fe_num(fe), own, [kk, list(n), hp, sig, dok, P.m_verdict(fe, v)]])
         if kk in called and not allowed:
             ctx.violation(site, 'delivered-unvalidated:' + cls,
@@ -245,6 +390,16 @@ def gate_oracle(ctx, fe, h, r, site):
                               f'Interest {kk}: the validator in force is {want or "the library default"}, '
                               f'the application-supplied validators consulted were {got}', case)
         ctx.stat(f'{fe}.in-force.{src}')
+        if how:
+            ctx.stat(f'{fe}.digest{how}.' + ('handler-called' if kk in called else 'dropped'))
+        if P.is_raise(v) and kk in who:
+            ctx.stat(f'{fe}.interest-validator-raised.{src}.' + ('handler-called' if kk in called else 'dropped'))
+
+
+# placements under which EVERY validator outcome 'terminates with an exception' is tried in the quick tier (thorough: all
+# placements): together they consult the route's own validator, the replaced application-wide one (legacy) and, after it
+# was restored, the library default again
+RAISE_SCHEMES = {'v1': ('after-routes', 'replaced-restored'), 'v2': ('never',)}
 
 
 def interest_table(ctx, fe, only=None):
@@ -254,7 +409,10 @@ def interest_table(ctx, fe, only=None):
             continue
         if fe == 'v2' and not ctx.thorough and scheme not in ('never', 'never+shutdown', 'after-routes', 'across-shutdown'):
             continue          # appv2 has no application-wide validator: quick keeps four placements, thorough all
-        for v in (range(5) if fe == 'v2' else range(len(P.V1_VALUES))):
+        outcomes = list(range(5) if fe == 'v2' else range(len(P.V1_VALUES)))
+        if ctx.thorough or scheme in RAISE_SCHEMES[fe]:
+            outcomes += raises()
+        for v in outcomes:
             for hp in (False, True, 2):
                 for sig in (0, 1, 2):
                     for dok in (True, False):
@@ -270,6 +428,84 @@ def interest_table(ctx, fe, only=None):
                                   'interest': {'params': hp, 'sig': sig, 'digest_ok': dok, 'verdict': v},
                                   'delivered': sorted({kk for _, kk in r['handler_calls']})},
                                  f'{fe}.interest.{scheme}.params={int(hp)}.sig={sig}.dok={int(dok)}')
+
+
+# =================================================================================================
+# SEQUENCES of incoming Interests on one application: a digest component that was right once is used again
+# =================================================================================================
+# "... is dropped unless its parameters digest is correct" speaks about EVERY Interest, whatever the application received
+# before it.  One application (one process: whatever the library remembers between packets is carried over) receives a
+# right Interest O (non-empty ApplicationParameters that no case of this run has used before, unsigned / signed) and
+# packets F that carry O's ParametersSha256DigestComponent over other parameters / another name / other signature
+# elements - so their digest is wrong - in every order, with repeats and retransmissions (C = O's very packet again, right).
+R_ROUTES = [(A, True), (AB, False), (X, True)]
+R_ORIG_NAME = A + (7,)
+R_NAMES = {'same-name': A + (7,), 'sibling': A + (8,), 'deeper-route': AB + (7,), 'other-route': X + (7,)}
+R_ORIG = [(True, 0), (True, 1)]                                    # (params, signature class) of the right Interest
+R_FORGED = [(True, 0), (True, 1), (2, 0), (False, 1), (True, 2), (2, 1)]     # ... of the packet carrying the re-used component
+R_ORDERS = {
+    'right-then-forged': 'OF',
+    'forged-then-right': 'FO',
+    'right-forged-forged': 'OFF',
+    'right-retransmitted-forged': 'OCF',
+    'right-forged-retransmitted-forged': 'OFCF',
+    'forged-right-forged': 'FOF',
+    'two-rights-crossed': 'OPGF',          # P: a second right Interest (other route); G re-uses P's component, F re-uses O's
+    'two-rights-forged-between': 'OGPF',   # G comes BEFORE the right Interest whose component it carries
+}
+
+
+def reuse_history(fe, order, o_attrs, f_attrs, f_name):
+    ok = P.PASS[fe]                 # every validator accepts: only the digest check stands between F and a handler
+    h = [('attach', p, hv, 10) for p, hv in R_ROUTES]
+    at = {c: order.index(c) for c in 'OP' if c in order}
+    t = 20
+    for k, c in enumerate(order):
+        t += 10
+        if c == 'O':
+            h.append(('interest', k, R_ORIG_NAME, o_attrs[0], o_attrs[1], True, ok, t))
+        elif c == 'P':
+            h.append(('interest', k, X + (9,), True, 1 - o_attrs[1], True, ok, t))
+        elif c == 'C':
+            h.append(('interest', k, R_ORIG_NAME, o_attrs[0], o_attrs[1], 'copy:%d' % at['O'], ok, t))
+        else:
+            h.append(('interest', k, f_name, f_attrs[0], f_attrs[1], 'reuse:%d' % at['O' if c == 'F' else 'P'], ok, t))
+    return h
+
+
+def reuse_table(ctx, fe):
+    site = ('appv2.NDNApp._on_interest' if fe == 'v2' else 'app.NDNApp._on_interest')
+    for oname, order in R_ORDERS.items():
+        for o_attrs in R_ORIG:
+            for f_attrs in R_FORGED:
+                for nname, f_name in R_NAMES.items():
+                    h = reuse_history(fe, order, o_attrs, f_attrs, f_name)
+                    m = P.run_model(ctx, fe, h)
+                    r = P.canon_impl(fe, P.run_impl(fe, h))
+                    P.compare(ctx, 'on_interest', fe, h, m, r)
+                    gate_oracle(ctx, fe, h, r, site)
+                    ctx.case((fe, 'reuse', oname, o_attrs, f_attrs, nname), True,
+                             {'frontend': fe, 'order': oname, 'right': o_attrs, 'forged': f_attrs, 'forged_name': nname,
+                              'delivered': sorted({kk for _, kk in r['handler_calls']})},
+                             f'{fe}.interest.digest-reuse.{oname}')
+
+
+def inject_reuse(rng, h, p=0.35):
+    """Random histories: with probability p an Interest takes the digest component of ANOTHER Interest of the history
+    (earlier or later) whose digest is right and whose parameters are non-empty, hence unique - or is that packet again."""
+    ints = [ev for ev in h if ev[0] in ('interest', 'arrive')]
+    mod = {ev[1] for ev in ints if rng.random() < p}
+    cands = [ev for ev in ints if ev[1] not in mod and ev[3] is True and ev[5] is True]
+    out = []
+    for ev in h:
+        if ev[0] in ('interest', 'arrive') and ev[1] in mod and cands:
+            c = rng.choice(cands)
+            if rng.random() < 0.25:
+                ev = ev[:2] + (c[2], c[3], c[4], 'copy:%d' % c[1]) + ev[6:]
+            elif ev[3] or ev[4]:
+                ev = ev[:5] + ('reuse:%d' % c[1],) + ev[6:]
+        out.append(ev)
+    return out
 
 
 def rand_gate_history(rng, fe):
@@ -301,6 +537,8 @@ def rand_gate_history(rng, fe):
             sig = rng.choice((0, 1, 1, 2))
             dok = True if (not hp and sig == 0) else rng.random() < 0.8
             v = rng.choice(range(5) if fe == 'v2' else range(len(P.V1_VALUES)))
+            if rng.random() < 0.2:
+                v = rng.choice(raises())          # the validator (if one is consulted) terminates with an exception
             h.append(('interest', k, rng.choice(PROBES), hp, sig, dok, v, t))
             k += 1
     return h
@@ -308,8 +546,10 @@ def rand_gate_history(rng, fe):
 
 def random_gate(ctx, fe, n):
     site = ('appv2.NDNApp._on_interest' if fe == 'v2' else 'app.NDNApp._on_interest')
-    for _ in range(n):
+    for j in range(n):
         h = rand_gate_history(ctx.rng, fe)
+        if j % 2:
+            h = inject_reuse(ctx.rng, h)
         m = P.run_model(ctx, fe, h)
         r = P.canon_impl(fe, P.run_impl(fe, h))
         P.compare(ctx, 'on_interest', fe, h, m, r)
@@ -391,6 +631,9 @@ def rand_susp_history(rng, fe):
     waiting = []
     pool = [A, AB, S_NAME, X, ABC]
     nv = 5 if fe == 'v2' else len(P.V1_VALUES)
+
+    def some_verdict():
+        return rng.choice(raises()) if rng.random() < 0.2 else rng.randrange(nv)
     for _ in range(rng.randint(5, 16)):
         t += rng.choice((1, 5, 10))
         a = rng.choice(['attach'] * 4 + ['detach'] * 3 + ['setdefault'] * 2 + ['arrive'] * 5 + ['interest'] * 2 + ['ivdone'] * 5)
@@ -410,7 +653,7 @@ def rand_susp_history(rng, fe):
         elif a == 'ivdone':
             if waiting:
                 kk = waiting.pop(rng.randrange(len(waiting)))
-                h.append(('ivdone', kk, rng.choice((P.PASS[fe], P.PASS[fe], rng.randrange(nv))), t))
+                h.append(('ivdone', kk, rng.choice((P.PASS[fe], P.PASS[fe], some_verdict())), t))
         else:
             hp = rng.choice((False, True, 2))
             sig = rng.choice((0, 1, 1, 2))
@@ -420,12 +663,12 @@ def rand_susp_history(rng, fe):
                 h.append(('arrive', k, n, hp, sig, dok, t))
                 waiting.append(k)
             else:
-                h.append(('interest', k, n, hp, sig, dok, rng.choice((P.PASS[fe], rng.randrange(nv))), t))
+                h.append(('interest', k, n, hp, sig, dok, rng.choice((P.PASS[fe], some_verdict())), t))
             k += 1
     for kk in waiting:
         if rng.random() < 0.8:
             t += 5
-            h.append(('ivdone', kk, rng.choice((P.PASS[fe], rng.randrange(nv))), t))
+            h.append(('ivdone', kk, rng.choice((P.PASS[fe], some_verdict())), t))
     h.append(('advance', t + 100))
     return h
 
@@ -443,10 +686,10 @@ def m_gevents(fe, h):
             out.append([2, ev[1]])
         elif tag == 'arrive':
             _, k, n, hp, sig, dok, _t = ev
-            out.append([3, [k, list(n), hp, sig, dok, 0], 1])
+            out.append([3, [k, list(n), hp, sig, P.dok_true(dok), 0], 1])
         elif tag == 'interest':
             _, k, n, hp, sig, dok, v, _t = ev
-            out.append([3, [k, list(n), hp, sig, dok, P.m_verdict(fe, v)], 0])
+            out.append([3, [k, list(n), hp, sig, P.dok_true(dok), P.m_verdict(fe, v)], 0])
         elif tag == 'ivdone':
             out.append([4, ev[1], P.m_verdict(fe, ev[2])])
     return out
@@ -495,7 +738,8 @@ def susp_oracle(ctx, fe, h, r, site):
                 i['verdict'] = ev[2]
                 i['table_at_verdict'] = dict(table)
     for kk, i in sorted(info.items()):
-        n, hp, sig, dok = i['name'], i['hp'], i['sig'], i['dok']
+        n, hp, sig, dok = i['name'], i['hp'], i['sig'], P.dok_true(i['dok'])
+        how = digest_class(i['dok'])
         plain = (not hp) and sig == 0
         needs = (hp or sig != 0) if fe == 'v2' else (sig != 0)
         got = delivered.get(kk, [])
@@ -508,7 +752,7 @@ def susp_oracle(ctx, fe, h, r, site):
             return own, bool(ctx.call([3, P.fe_num(fe), own, [kk, list(n), hp, sig, dok, mv]]))
         if len(got) > 1:
             ctx.violation(site, 'delivered-twice', f'Interest {kk} reached handlers {got}', case)
-        cls = f'params={int(hp)}:sig={sig}:digest_ok={int(dok)}:verdict={v}'
+        cls = f'params={int(hp)}:sig={sig}:digest_ok={int(dok)}{how}:verdict={v}'
         for hd in got:
             pfx, hasv = att[hd]
             arrival = i['route'] is not None and i['route'][1] == hd
@@ -542,6 +786,11 @@ def susp_oracle(ctx, fe, h, r, site):
         if plain and kk in who:
             ctx.violation(site, 'validator-consulted-for-plain', 'a plain Interest was handed to a validator', case)
         ctx.stat(f'{fe}.suspended.' + ('no-route' if i['route'] is None else 'delivered' if got else 'dropped'))
+        if how:
+            ctx.stat(f'{fe}.digest{how}.' + ('handler-called' if got else 'dropped'))
+        if P.is_raise(v) and kk in who:
+            ctx.stat(f'{fe}.interest-validator-raised.' + ('suspended.' if i['suspends'] else 'at-once.')
+                     + ('handler-called' if got else 'dropped'))
 
 
 def run_susp(ctx, fe, h, key, sample, stratum):
@@ -573,6 +822,29 @@ def suspended_table(ctx, fe):
                                 run_susp(ctx, fe, h, (fe, 'susp', upd, where, base_v, attrs, v, dflt0, second),
                                          {'update': upd, 'where': where, 'route_validator': base_v, 'attrs': attrs, 'verdict': v},
                                          f'{fe}.suspended.{upd}.{where}')
+    n_rot = 0
+    # the suspended validator TERMINATES WITH AN EXCEPTION when it is resumed (the certificate fetch it was waiting for
+    # timed out / was nacked / the face went down): every exception class x every update of the routing state in the window
+    # (thorough: also before / after, all attribute classes, a second Interest that is accepted)
+    for upd in S_UPDATES:
+        for where in (('before', 'window', 'after') if ctx.thorough else ('window',)):
+            for base_v in (True, False):
+                # quick: the attribute classes whose validator is consulted (legacy: the signed ones)
+                for attrs in (S_ATTRS if ctx.thorough else S_ATTRS[:3] if fe == 'v2' else S_ATTRS[1:3]):
+                    # quick: three exception classes per combination, rotating (every class meets every update at least
+                    # once); thorough: the full product
+                    n_rot += 1
+                    R = raises()
+                    for v in (R if ctx.thorough else [R[(3 * n_rot + j) % len(R)] for j in range(3)]):
+                        for dflt0 in ((False, True) if fe == 'v1' else (False,)):
+                            for second in ((None, 'susp') if ctx.thorough else (None,)):
+                                h = susp_history(fe, base_v, upd, where, attrs, v, dflt0, second)
+                                if second is not None:
+                                    # the second Interest (answered first) is ACCEPTED, the first one's validator raises
+                                    h = [(e[:2] + (P.PASS[fe],) + e[3:]) if e[0] == 'ivdone' and e[1] == 1 else e for e in h]
+                                run_susp(ctx, fe, h, (fe, 'susp-raise', upd, where, base_v, attrs, v, dflt0, second),
+                                         {'update': upd, 'where': where, 'route_validator': base_v, 'attrs': attrs, 'verdict': v},
+                                         f'{fe}.suspended-raises.{upd}.{where}')
     # corrupted digest: dropped before any validator, whatever happens to the routes
     for upd in S_UPDATES:
         for attrs in S_ATTRS[:4]:
@@ -581,8 +853,10 @@ def suspended_table(ctx, fe):
 
 
 def random_susp(ctx, fe, n):
-    for _ in range(n):
+    for j in range(n):
         h = rand_susp_history(ctx.rng, fe)
+        if j % 2:
+            h = inject_reuse(ctx.rng, h)
         run_susp(ctx, fe, h, (fe, 'susp-rand', tuple(map(repr, h))), {'history': h}, f'{fe}.suspended.random')
 
 
@@ -594,21 +868,27 @@ def run(ctx):
                      names, ['FAIL', 'TIMEOUT', 'SILENCE', 'PASS', 'ALLOW_BYPASS'], names)
     for fe in ('v2', 'v1'):
         interest_table(ctx, fe)
+        reuse_table(ctx, fe)
         random_gate(ctx, fe, ctx.n(200, 6000))
         suspended_table(ctx, fe)
         random_susp(ctx, fe, ctx.n(300, 6000))
         reps = ctx.n(3, 60)
         for _ in range(reps):
-            for v in P.verdicts(fe):
+            for v in P.verdicts(fe) + raises():
                 for lat in LATENCIES:
                     h, D = data_case(ctx.rng, fe, v, lat)
-                    same, m, r = P.check_history(ctx, fe, h, f'verdict.{lat}', 'C05')
+                    same, m, r = check_data(ctx, fe, h, f'verdict.{lat}')
                     data_oracle(ctx, fe, h, D, v, lat, r)
         for tag, h in P.targeted(fe):
-            P.check_history(ctx, fe, h, 'targeted.' + tag, 'C05')
+            check_data(ctx, fe, h, 'targeted.' + tag)
         for k in range(ctx.n(300, 10000)):
             h = P.rand_history(ctx.rng, fe, wf=True)
-            P.check_history(ctx, fe, h, 'random', 'C05')
+            check_data(ctx, fe, h, 'random')
+        # the same random histories with Data validators that terminate with an exception instead of answering
+        for k in range(ctx.n(200, 5000)):
+            h = inject_raises(ctx.rng, P.rand_history(ctx.rng, fe, wf=True))
+            if raised_ids(h):
+                check_data(ctx, fe, h, 'random-raises')
 
 
 def replay(ctx, data):
@@ -626,4 +906,4 @@ def replay(ctx, data):
         gate_oracle(ctx, fe, h, r, 'appv2.NDNApp._on_interest' if fe == 'v2' else 'app.NDNApp._on_interest')
         return
     c = P.unjson_case(case)
-    P.check_history(ctx, c['frontend'], c['history'], 'replay', 'C05')
+    check_data(ctx, c['frontend'], c['history'], 'replay')
